@@ -311,6 +311,25 @@ type genOpts struct {
 	maxMap       int    // maximum number of map entries
 	noExt        bool   // do not populate extensions
 	runtime      string // runtime of the concrete type the value is generated for (drives exclusions)
+	jsonSafe     bool   // finite floats and declared enum values only (the JSON mapping cannot round-trip the rest on every runtime)
+}
+
+func jsonSafeValue(fd protoreflect.FieldDescriptor, v protoreflect.Value) protoreflect.Value {
+	switch fd.Kind() {
+	case protoreflect.FloatKind:
+		if f := v.Float(); math.IsNaN(f) || math.IsInf(f, 0) {
+			return protoreflect.ValueOfFloat32(1.5)
+		}
+	case protoreflect.DoubleKind:
+		if f := v.Float(); math.IsNaN(f) || math.IsInf(f, 0) {
+			return protoreflect.ValueOfFloat64(-2.25)
+		}
+	case protoreflect.EnumKind:
+		if n := v.Enum(); n < 0 || n > 2 {
+			return protoreflect.ValueOfEnum(1)
+		}
+	}
+	return v
 }
 
 func isNegZero(fd protoreflect.FieldDescriptor, v protoreflect.Value) bool {
@@ -360,6 +379,8 @@ func genDyn(t *rapid.T, md protoreflect.MessageDescriptor, depth int, o genOpts)
 				k := genScalar(t, fd.MapKey()).MapKey()
 				if fd.MapValue().Message() != nil {
 					mp.Set(k, protoreflect.ValueOfMessage(genChild(t, fd.MapValue().Message(), depth, o)))
+				} else if o.jsonSafe {
+					mp.Set(k, jsonSafeValue(fd.MapValue(), genScalar(t, fd.MapValue())))
 				} else {
 					mp.Set(k, genScalar(t, fd.MapValue()))
 				}
@@ -371,6 +392,8 @@ func genDyn(t *rapid.T, md protoreflect.MessageDescriptor, depth int, o genOpts)
 			for i := 0; i < n; i++ {
 				if fd.Message() != nil {
 					l.Append(protoreflect.ValueOfMessage(genChild(t, fd.Message(), depth, o)))
+				} else if o.jsonSafe {
+					l.Append(jsonSafeValue(fd, genScalar(t, fd)))
 				} else {
 					l.Append(genScalar(t, fd))
 				}
@@ -380,6 +403,9 @@ func genDyn(t *rapid.T, md protoreflect.MessageDescriptor, depth int, o genOpts)
 			m.Set(fd, protoreflect.ValueOfMessage(genChild(t, fd.Message(), depth, o)))
 		default:
 			v := genScalar(t, fd)
+			if o.jsonSafe {
+				v = jsonSafeValue(fd, v)
+			}
 			if isNegZero(fd, v) && !fd.HasPresence() && excluding("negative-zero-in-implicit-presence-float") {
 				continue
 			}
@@ -390,6 +416,26 @@ func genDyn(t *rapid.T, md protoreflect.MessageDescriptor, depth int, o genOpts)
 }
 
 func genChild(t *rapid.T, md protoreflect.MessageDescriptor, depth int, o genOpts) *dynamicpb.Message {
+	if o.jsonSafe {
+		// the JSON mapping of Timestamp / Duration only exists for values inside their documented ranges
+		switch md.FullName() {
+		case "google.protobuf.Timestamp":
+			sub := dynamicpb.NewMessage(md)
+			sub.Set(md.Fields().ByNumber(1), protoreflect.ValueOfInt64(rapid.Int64Range(-62135596800, 253402300799).Draw(t, "ts")))
+			sub.Set(md.Fields().ByNumber(2), protoreflect.ValueOfInt32(rapid.Int32Range(0, 999999999).Draw(t, "tn")))
+			return sub
+		case "google.protobuf.Duration":
+			sub := dynamicpb.NewMessage(md)
+			sec := rapid.Int64Range(-9000000000, 9000000000).Draw(t, "ds") // the V1 JSON decoders go through time.ParseDuration (+-292 years)
+			ns := rapid.Int32Range(0, 999999999).Draw(t, "dn")
+			if sec < 0 {
+				ns = -ns
+			}
+			sub.Set(md.Fields().ByNumber(1), protoreflect.ValueOfInt64(sec))
+			sub.Set(md.Fields().ByNumber(2), protoreflect.ValueOfInt32(ns))
+			return sub
+		}
+	}
 	if depth <= 0 || rapid.IntRange(0, 4).Draw(t, "emptychild") == 0 {
 		sub := dynamicpb.NewMessage(md)
 		if o.requiredProb >= 10 {
